@@ -74,15 +74,12 @@ Proof. destruct x, y; simpl; try reflexivity. apply Z.eqb_sym. Qed.
 Lemma set_cell_bridge e s a tgt : set_cell e s a tgt = to_res (gen_cell_setter e s a tgt).
 Proof.
   unfold set_cell, gen_cell_setter. cbv zeta.
-  destruct (opt_eqb (ptr s a) tgt) eqn:Eq.
-  - assert (opt_eqb tgt (ptr s a) = true) as -> by (rewrite opt_eqb_sym; exact Eq). reflexivity.
-  - assert (opt_eqb tgt (ptr s a) = false) as -> by (rewrite opt_eqb_sym; exact Eq).
-    destruct tgt as [c|]; destruct (ptr s a) as [c0|] eqn:Ep; cbn [opt_eqb negb];
-      try rewrite <- add_agent_bridge;
-      try (destruct (add_agent e s c a) as [s1 [er|]]; [reflexivity|]);
-      try rewrite <- remove_agent_bridge;
-      try (match goal with |- context [remove_agent ?t c0 a] => destruct (remove_agent t c0 a) as [s2 [er|]] end);
-      try reflexivity.
+  destruct tgt as [c|]; destruct (ptr s a) as [c0|] eqn:Ep; cbn [opt_eqb negb];
+    repeat rewrite <- add_agent_bridge;
+    try (destruct (add_agent e s c a) as [s1 [er|]]); cbv beta iota;
+    repeat rewrite <- remove_agent_bridge;
+    repeat match goal with |- context [remove_agent ?t c0 a] => destruct (remove_agent t c0 a) as [? [?|]] end;
+    cbv beta iota; split_ifs.
 Qed.
 
 Lemma fixed_set_bridge e s a tgt : fixed_set e s a tgt = to_res (gen_fixed_setter e s a tgt).
